@@ -1,0 +1,38 @@
+//go:build verif
+
+package syntax
+
+// Accessors to the unexported compile-time analyses of prefixanalyzer.go, optimizations.go and
+// prefix.go (build tag verif, add-only): the correspondence leg c04-analysis2 compares each
+// function's result with the extracted model, independently of the decision ladder.
+
+func VerifFindFirstCharClass(root *RegexNode) *CharSet { return findFirstCharClass(root) }
+
+func VerifFindFixedDistanceSets(root *RegexNode, thorough bool) []FixedDistanceSet {
+	return findFixedDistanceSets(root, thorough)
+}
+
+// findFixedDistanceString sorts its argument in place: it gets a copy.
+func VerifFindFixedDistanceString(sets []FixedDistanceSet) *FixedDistanceLiteral {
+	return findFixedDistanceString(append([]FixedDistanceSet(nil), sets...))
+}
+
+func VerifFindPrefixes(root *RegexNode, ignoreCase bool) []string {
+	return findPrefixes(root, ignoreCase)
+}
+
+func VerifFindPrefixOrdinalCaseInsensitive(root *RegexNode) string {
+	return findPrefixOrdinalCaseInsensitive(root)
+}
+
+func VerifFindLiteralFollowingLeadingLoop(root *RegexNode) *LiteralAfterLoop {
+	return findLiteralFollowingLeadingLoop(root)
+}
+
+func VerifFindRequiredLandmarkChain(root *RegexNode) *RequiredLandmarkChain {
+	return findRequiredLandmarkChain(root)
+}
+
+func VerifGetFirstCharsPrefix(tree *RegexTree) *Prefix { return getFirstCharsPrefix(tree) }
+
+func VerifParticipatesInCaseConversion(ch rune) bool { return participatesInCaseConversion(ch) }
